@@ -541,18 +541,34 @@ func runAdmitCase(c *PRNG, res *Result, sc *SimContext, mut *mutation.Mutator) {
 		subs := rj.Spec.Substitutions
 		tmpl := rj.Spec.Template.TaskTemplate.Pod.ConvertToCoreSpec()
 		ti := tasks.TaskIndex{Retry: int64(c.Intn(2)), Parallel: parallel.GetDefaultIndex()}
-		var rendered []string
+		// "the same every time for the same Job and index": the reference rendering comes from a
+		// private copy of the Job; the Job object itself then creates a task of another retry
+		// first (the controller creates all tasks of a Job from one cached object), then this
+		// index five times; the Job's own template must come out of it as it went in
+		pristine := rj.DeepCopy()
+		ref, err := podtaskexecutor.NewPod(pristine, pristine.Spec.Template.TaskTemplate.Pod.ConvertToCoreSpec(), ti)
+		if err != nil {
+			panic(err)
+		}
+		rendered := ref.Spec.Containers[0].Args
+		taskv = variablecontext.ContextProvider.MakeVariablesFromTask(variablecontext.TaskSpec{Name: ref.Name, Namespace: ref.Namespace, RetryIndex: ti.Retry, ParallelIndex: ti.Parallel})
+		tmplBefore := fmt.Sprint(rj.Spec.Template.TaskTemplate.Pod.Spec.Containers[0].Args)
+		other := tasks.TaskIndex{Retry: ti.Retry + 1, Parallel: parallel.GetDefaultIndex()}
+		if _, err := podtaskexecutor.NewPod(rj, rj.Spec.Template.TaskTemplate.Pod.ConvertToCoreSpec(), other); err != nil {
+			panic(err)
+		}
 		for r := 0; r < 5; r++ {
 			pod, err := podtaskexecutor.NewPod(rj, tmpl, ti)
 			if err != nil {
 				panic(err)
 			}
-			if r == 0 {
-				rendered = pod.Spec.Containers[0].Args
-				taskv = variablecontext.ContextProvider.MakeVariablesFromTask(variablecontext.TaskSpec{Name: pod.Name, Namespace: pod.Namespace, RetryIndex: ti.Retry, ParallelIndex: ti.Parallel})
-			} else if fmt.Sprint(rendered) != fmt.Sprint(pod.Spec.Containers[0].Args) {
-				hit("C18/substitution-nondeterministic", fmt.Sprintf("NewPod args %q and %q", rendered, pod.Spec.Containers[0].Args))
+			if fmt.Sprint(rendered) != fmt.Sprint(pod.Spec.Containers[0].Args) {
+				hit("C18/substitution-nondeterministic", fmt.Sprintf("NewPod args for retry %d: %q from a fresh copy of the Job, %q after a task of retry %d was created from the same Job object", ti.Retry, rendered, pod.Spec.Containers[0].Args, other.Retry))
+				break
 			}
+		}
+		if after := fmt.Sprint(rj.Spec.Template.TaskTemplate.Pod.Spec.Containers[0].Args); after != tmplBefore {
+			hit("C18/task-creation-rewrites-job-template", fmt.Sprintf("the Job's template args were %s and are %s after creating tasks", tmplBefore, after))
 		}
 		js["substitutions"], js["rendered"] = subs, rendered
 		outTerm = "(Some " + CPair(kvTerm(subs), CListStr(rendered)) + ")"
